@@ -32,6 +32,14 @@ CLAIMED = {
         text="generated programs biased to what simplify.c rewrites (constant tests, constant lets with shadowing/mutation, overflowing literal arithmetic, dead erroring branches, dead statements) run with the pass on and off in one binary, on the SEXP_USE_SIMPLIFY=0 build and against refscheme.py; arithmetic tuples through the 128-bit helpers run on the default and the SEXP_USE_CUSTOM_LONG_LONGS=1 build and against Python integers; exploration only",
         note="trusted: refscheme.py / Python integers; programs whose meaning R7RS leaves undefined are not generated",
         technique="property-based differential testing across optimisation settings and build variants, anchored by a reference model"),
+    "C05": dict(
+        text="loop programs built from every chain of 1-2 tail contexts of R7RS 3.5 (22 contexts, exhaustive in the thorough tier; sampled chains of length 3) x 7 call shapes (self/mutual recursion, fixed/rest/optional arity, apply); the VM stack top read from inside the loop at iterations 10..10^6 must be identical at every reading, N up to 10^6 (10^7 thorough) must finish and the heap must not grow with N; non-tail recursion (plain, map, apply, call/cc, accumulating) at depths 1..1.2M must give the right value or the out-of-stack error object and leave the context usable; each shard first proves the oracle can see growth by running one loop with tail calls disabled; exploration only",
+        note="trusted: verif-stack-top (driver foreign function reading sexp_context_top as published to foreign calls); CPU-budget overruns are inconclusive",
+        technique="property-based testing with a metamorphic/invariant oracle (stack pointer constant across iterations) over an enumerated grammar of tail contexts, with an oracle self-test"),
+    "C06": dict(
+        text="control scripts (dynamic-wind nesting <= 4, 3 continuations each invoked <= 2 times incl. re-entry, parameterize with/without converter, handlers that return/escape/re-raise, raise and raise-continuable, guard with matching/non-matching/re-raising clauses) rendered as one top-level expression; an enumerated family of small scripts plus Hypothesis-drawn larger ones; the trace must equal the one produced by the CPS reference interpreter (wind list, handler stack and parameterisation from R7RS 6.7/6.10/6.11/7.3); exploration only",
+        note="trusted: refscheme.py; scripts stay inside one top-level expression; payloads of secondary exceptions are compared only as 'non-symbol'",
+        technique="property-based differential testing against a reference model of the R7RS wind/handler/parameter semantics (enumeration + Hypothesis)"),
 }
 
 NOT_YET = "check not built yet in this session (planned, see DESIGN.md section 4)"
